@@ -131,6 +131,10 @@ def scripted_part(ck):
 
 def main():
     ck = core.Check("C14", "model_checking")
+    if ck.args.replay:
+        from vlib import sysrun as _sr
+
+        _sr.replay(ck, "C14", ck.args.replay)
     cfgs = [dict(clustering="TRUE", every=2, metric="ess", cap=0), dict(clustering="TRUE", every=3, metric="ess", cap=2)]
     cov = sysrun.model_part(ck, "C14", variants=["rankmodes", "unfitted"], tier=ck.tier, configs=cfgs)
     limit = 40 if ck.tier == "quick" else 256
